@@ -9,6 +9,8 @@ import (
 	"math/rand/v2"
 	"net/http"
 	"net/url"
+	"os"
+	"strconv"
 	"strings"
 	"sync"
 
@@ -42,7 +44,10 @@ type roundCfg struct {
 func roundConfig(run *ev.Run, r int) roundCfg {
 	c := roundCfg{Round: r, Dynamic: r%2 == 1, LegacyOnOp: r%4 == 2, Extras: r%3 == 1, Workers: []int{16, 32, 64, 48}[r%4]}
 	c.SigAlg = string([]jose.SignatureAlgorithm{jose.RS256, jose.ES256, jose.ES256, jose.PS256, jose.EdDSA}[r%5])
-	c.Ops = run.N(20000, 50000)
+	c.Ops = run.N(4000, 20000)
+	if v, err := strconv.Atoi(os.Getenv("C20_DEV_OPS")); err == nil {
+		c.Ops = v
+	}
 	return c
 }
 
@@ -75,6 +80,7 @@ type round struct {
 	sets     []*sharedSet
 	hcShared *http.Client
 	w        watch
+	pre      snapshot // values of objects registered after the round's first snapshot, taken at registration
 
 	mu        sync.Mutex
 	approved  []devEntry
@@ -232,6 +238,9 @@ type worker struct {
 var srvKinds = []string{"s.discovery", "s.keys", "s.code", "s.code", "s.implicit", "s.refresh", "s.userinfo", "s.userinfo", "s.introspect", "s.revoke", "s.end_session",
 	"s.client_credentials", "s.jwt_bearer", "s.token_exchange", "s.device", "s.device_poll_shared", "s.device_poll_shared", "s.device_poll_shared", "s.device_poll_pending", "s.refresh_shared", "s.ready"}
 
+// constructions of unrelated instances while the shared ones are in use
+var newKinds = []string{"x.new_provider_custom", "x.new_provider_default", "x.new_rp", "x.new_rs_te"}
+
 var cliKinds = []string{"c.code", "c.code", "c.browser", "c.userinfo", "c.userinfo", "c.refresh", "c.endsession", "c.endsession", "c.revoke", "c.revoke", "c.clientcreds",
 	"c.device", "c.introspect", "c.introspect", "c.exchange", "c.ts", "c.verify", "c.discover", "c.discover_front"}
 
@@ -247,7 +256,7 @@ func concMandatory() []string {
 			}
 		}
 	}
-	for _, k := range cliKinds {
+	for _, k := range append(append([]string(nil), cliKinds...), newKinds...) {
 		n := "conc:ok:" + k
 		if !seen[n] {
 			seen[n] = true
@@ -481,6 +490,96 @@ func (w *worker) srvOp(kind string, ri int) (class string) {
 	return classOf(resp)
 }
 
+// newOp constructs an instance that has nothing to do with the shared ones, while those are in use.
+func (w *worker) newOp(kind string) (class string) {
+	rd := w.rd
+	var err error
+	ok := rd.lib(func() {
+		switch kind {
+		case "x.new_provider_custom", "x.new_provider_default":
+			cfg := opdrv.DefaultConfig()
+			opts := []op.Option{op.WithLogger(opdrv.Discard)}
+			if kind == "x.new_provider_custom" {
+				ps := provSpec{Mask: uint8(1 + w.r.IntN(255)), Variant: "c"}
+				opts = append(opts, ps.options()...)
+			}
+			var p *op.Provider
+			p, err = op.NewProvider(&cfg, rd.b.w.Storage, op.StaticIssuer("https://other.verif.test"), opts...)
+			if err == nil {
+				resp := serve(p, "GET", "other.verif.test", oidc.DiscoveryEndpoint, nil, nil)
+				if resp.Status != 200 {
+					err = fmt.Errorf("discovery of the new provider: %d", resp.Status)
+				}
+			}
+		case "x.new_rp":
+			set := rd.sets[w.r.IntN(len(rd.sets))]
+			if w.r.IntN(2) == 0 {
+				_, err = rp.NewRelyingPartyOIDC(ctxBG, set.issuer, "c20", "secret-c20", c20Redirect, []string{"openid"})
+			} else {
+				_, err = rp.NewRelyingPartyOIDC(ctxBG, set.issuer, "c20", "secret-c20", c20Redirect, []string{"openid"}, rp.WithHTTPClient(rd.hcShared))
+			}
+		case "x.new_rs_te":
+			set := rd.sets[w.r.IntN(len(rd.sets))]
+			if w.r.IntN(2) == 0 {
+				_, err = rs.NewResourceServerClientCredentials(ctxBG, set.issuer, "c20", "secret-c20")
+			} else {
+				_, err = tokenexchange.NewTokenExchangerClientCredentials(ctxBG, set.issuer, "c20", "secret-c20", tokenexchange.WithHTTPClient(rd.hcShared))
+			}
+		}
+	})
+	switch {
+	case !ok:
+		return "panic"
+	case err == nil:
+		return "ok"
+	}
+	return "error:" + errStr(err)
+}
+
+// deviceBursts: for each of n freshly approved device codes per router, g goroutines released together poll it, so
+// that the first use of the shared storage-owned state is itself concurrent.
+func (rd *round) deviceBursts(n, g int) {
+	ds := rd.b.w.Storage.(op.DeviceAuthorizationStorage)
+	for ri, s := range rd.srvs {
+		for k := 0; k < n; k++ {
+			cid := []string{"c20", "c20jwtat"}[k%2]
+			cl := rd.b.clients[cid]
+			resp := s.post("/device_authorization", url.Values{"scope": {"openid profile"}}, s.authFor(cl))
+			dc := resp.Str("device_code")
+			if dc == "" {
+				rd.harness("device authorization failed: " + resp.Brief())
+				return
+			}
+			rd.b.w.Store.ApproveDevice(dc, "user-1")
+			if k < 3 {
+				if state, err := ds.GetDeviceAuthorizatonState(context.Background(), cid, dc); err == nil {
+					name := fmt.Sprintf("burst-device-state(%s,%d,%s)", s.name, k, cid)
+					rd.w.deviceState(name, state)
+					rd.pre = append(rd.pre, fieldsOf(name, state, prefKey("C20:mutation:DeviceAuthorizationState."))...) // its value before the burst
+				}
+			}
+			start := make(chan struct{})
+			var wg sync.WaitGroup
+			for j := 0; j < g; j++ {
+				wg.Add(1)
+				go func() {
+					defer wg.Done()
+					<-start
+					p := s.token(url.Values{"grant_type": {string(oidc.GrantTypeDeviceCode)}, "device_code": {dc}}, s.authFor(cl))
+					rd.run.Eval()
+					rd.run.Count("conc_outcome", "s.device_burst "+classOf(p))
+					if p.Status == 200 {
+						rd.run.Observed("conc:shared-device-state-polled-concurrently")
+						rd.run.Distinct(fmt.Sprintf("s.device_burst|%s|%s", opdrv.RouterNames[ri], cid))
+					}
+				}()
+			}
+			close(start)
+			wg.Wait()
+		}
+	}
+}
+
 func (w *worker) cliOp(kind string, set *sharedSet) (class string) {
 	rd := w.rd
 	var err error
@@ -624,7 +723,11 @@ func (w *worker) run(n int) int {
 	rd := w.rd
 	for i := 0; i < n; i++ {
 		var kind, where, class string
-		if w.r.IntN(2) == 0 {
+		if x := w.r.IntN(40); x == 0 {
+			kind = newKinds[w.r.IntN(len(newKinds))]
+			where = "-"
+			class = w.newOp(kind)
+		} else if x%2 == 0 {
 			kind = srvKinds[w.r.IntN(len(srvKinds))]
 			ri := w.r.IntN(2)
 			where = rd.srvs[ri].name
@@ -698,6 +801,8 @@ func runRound(run *ev.Run, r int) {
 		base[i] = probe(hc)
 	}
 	before := append(globals(), rd.w.snap()...)
+	rd.deviceBursts(run.N(12, 40), 8)
+	before = append(before, rd.pre...)
 
 	var wg sync.WaitGroup
 	per := rd.cfg.Ops / rd.cfg.Workers
@@ -706,10 +811,14 @@ func runRound(run *ev.Run, r int) {
 		go func(wi int) {
 			defer wg.Done()
 			w := &worker{rd: rd, id: wi, r: run.CaseRand(uint64(100+r), wi), pk: pocket{}}
+			// The operations of one worker run in a succession of short-lived goroutines: recovered panics
+			// anywhere below (the standard library uses them too) leave stale frames on the race detector's
+			// shadow stack of a goroutine, which would otherwise grow without bound.
 			for rem := per; rem > 0; {
+				batch := min(rem, 20)
 				left := make(chan int)
-				go func() { left <- w.run(rem) }()
-				rem = <-left
+				go func() { left <- w.run(batch) }()
+				rem -= batch - <-left
 			}
 		}(wi)
 	}
